@@ -90,6 +90,9 @@ struct WaypointCost {
   }
 };
 // running cost: W_i * [ sum_x a_x 0.5|x|^2 + a_pv p.v ] * phi(t_global) + b * t_global^2 ; explicit time only through t_global
+// user executors (the documented protocol: call f(i) for every i in [start, end), in any order / on any thread)
+struct DescendingExecutor { template <class F> void operator()(int start, int end, F &&f) const { for (int i = end - 1; i >= start; --i) f(i); } };
+struct EvenOddExecutor { template <class F> void operator()(int start, int end, F &&f) const { for (int i = start; i < end; i += 2) f(i); for (int i = start + 1; i < end; i += 2) f(i); } };
 struct Sample { double t, tg; int seg; std::vector<double> p, v, a, j, s; };
 template <int DIM> struct RunCost {
   typedef Eigen::Matrix<double, DIM, 1> V;
